@@ -99,16 +99,33 @@ theorem NoRep.setTh {s : Sys} (h : NoRep s) (t : Nat) (th : Th) (hst : StackAll 
 
 theorem NoRep.dropNone {s : Sys} (h : NoRep s) (t : Nat) : NoRep (s.dropSpanVal t none) := h
 
-/-- **one operation of a program that has not installed a reporter** (`enter_with_parents` is
-    excluded: over no-op parents it yields a live span with an empty token, whose closures do run) -/
-theorem exec_noRep (s : Sys) (t : Nat) (op : Op) (hop : ∀ c, op ≠ .setReporter c)
-    (hop2 : ∀ v n ps, op ≠ .childN v n ps) (h : NoRep s) :
+theorem NoRep.tokenOfVar {s : Sys} (h : NoRep s) (p : String) : s.tokenOfVar p = [] := by
+  unfold Sys.tokenOfVar
+  cases hg : assocGet s.spans p with
+  | none => rfl
+  | some sv =>
+    have := h.getSpan hg
+    subst this
+    rfl
+
+theorem NoRep.flatMap_tokenOfVar {s : Sys} (h : NoRep s) (ps : List String) : ps.flatMap s.tokenOfVar = [] := by
+  induction ps with
+  | nil => rfl
+  | cons p ps ih => simp [List.flatMap_cons, h.tokenOfVar p, ih]
+
+/-- **one operation of a program that has not installed a reporter** -/
+theorem exec_noRep (s : Sys) (t : Nat) (op : Op) (hop : ∀ c, op ≠ .setReporter c) (h : NoRep s) :
     NoRep (exec s t op).1 ∧ InertObs op (exec s t op).2 := by
   have q : ∀ {S : Sys} {o : Obs}, NoRep S → o.inert = true → NoRep (S, o).1 ∧ InertObs op (S, o).2 :=
     fun hs hi => ⟨hs, inertObs_of hi⟩
   cases op with
   | setReporter c => exact absurd rfl (hop c)
-  | childN v n ps => exact absurd rfl (hop2 v n ps)
+  | childN v n ps =>
+    simp only [exec]
+    split
+    · exact q h rfl
+    · rw [h.flatMap_tokenOfVar ps]
+      exact q (h.setSpanNone v) rfl
   | spawn =>
     simp only [exec]
     refine q (NoRep.putCtr ?_ t _) rfl
@@ -458,17 +475,16 @@ end Fastrace
 
 namespace Fastrace
 
-/-- **every observation of a program that never installs a reporter** (and does not use
-    `enter_with_parents`) is inert -/
+/-- **every observation of a program that never installs a reporter** is inert -/
 theorem run_noRep (p : Program) (s : Sys)
-    (hp : ∀ x ∈ p, (∀ c, x.2 ≠ .setReporter c) ∧ ∀ v n ps, x.2 ≠ .childN v n ps) (h : NoRep s) :
+    (hp : ∀ x ∈ p, ∀ c, x.2 ≠ .setReporter c) (h : NoRep s) :
     ∀ x ∈ p.zip (run s p).2, InertObs x.1.2 x.2 := by
   induction p generalizing s with
   | nil => intro x hx; simp [run] at hx
   | cons y rest ih =>
     obtain ⟨t, op⟩ := y
     have hy := hp (t, op) (by simp)
-    have he := exec_noRep s t op hy.1 hy.2 h
+    have he := exec_noRep s t op hy h
     intro x hx
     simp only [run, List.zip_cons_cons, List.mem_cons] at hx
     rcases hx with rfl | hx
